@@ -76,7 +76,7 @@ class C12(Prop):
                   'except forceId changes the file id, and - once createDataFrame checks for duplicates - no operation changes an entity id; ids ever '
                   'stored and ids held are pairwise distinct in every reachable state GIVEN pairwise distinct seeds and an engine that gives different '
                   'ids to the createId calls made; equal seeds give equal id sequences and the pinned seed is time(0) mod 2^32 only, hence (for every '
-                  'engine) a second process started within the same second repeats the first one\'s ids. The hand-written model is tied to the code by '
+                  'engine) a second process started within the same second repeats the first one\'s ids; a child forked after the first createId call inherits the function-local static engine and (for every engine) repeats its parent\'s and its siblings\' ids, while a library that re-seeds in the child makes a forked child just another process. The hand-written model is tied to the code by '
                   'replaying generated histories on the sanitizer-built library with its real id generator and on the extracted model, and by a '
                   'multi-process experiment under the real clock.')
     level_note = ('PARTIAL. Proved: well-formedness, stability, uniqueness-given-distinct-seeds-and-a-non-repeating-engine. ASSUMED, not proved: '
@@ -139,7 +139,10 @@ class C12(Prop):
         if not bad:
             return {'kind': 'none'}
         i = bad[0]
-        return {'kind': self._category(case.lines[i], impl[i], spec[i])}
+        kind = self._category(case.lines[i], impl[i], spec[i])
+        if kind == 'id-collision-in-file' and any(l.startswith('xfork') for l in case.lines[:i + 1]):
+            kind += '-after-fork'
+        return {'kind': kind}
 
     def describe(self, case, impl, spec):
         bad = self._bad(impl, spec)
@@ -344,7 +347,7 @@ class C12(Prop):
                   'create block -1 %s -1' % H('v'), 'xfork 5 5 array 1 %s' % H('q')], 'fork'),
             Case(['forks 2 1'], 'forks'), Case(['forks 8 40'], 'forks'), Case(['forks 3 0'], 'forks'),
             # malformed stream
-            Case(['create block -1 %s -1' % H('b'), 'forceid', 'delete 0', 'xfork 1 2 block 1 %s' % H('b')], 'malformed'),
+            Case(['reset', 'create block -1 %s -1' % H('b'), 'forceid', 'delete 0', 'xfork 1 2 block 1 %s' % H('b')], 'malformed'),
             Case(['new 7 1', 'delete 0', 'set 3 type', 'create array 0 %s -1' % H('a'), 'create feature 0 - 0', 'create mtag -1 %s -1' % H('m'),
                   'create block 0 %s -1' % H('b'), 'create block -1 %s -1' % H('b'), 'create block -1 %s -1' % H('c'),
                   'create array 0 %s -1' % H('a'), 'create tag 1 %s -1' % H('t'), 'create feature 3 - 2', 'create mtag 1 %s 2' % H('m'),
